@@ -90,7 +90,7 @@ pub fn small_scenarios(max_p: usize, max_c: usize) -> Vec<(usize, Vec<u8>, usize
 }
 
 fn small_block(ctx: &Ctx) {
-    let scen = small_scenarios(ctx.tier.pick(5, 7), 3);
+    let scen = small_scenarios(ctx.tier.pick(5, 8), 3);
     ctx.note("small_scope", json!({"scenarios": scen.len(), "max_chunks": 5, "max_chunk_size": 3, "exhaustive": true,
         "space": "every body of <=5 chunks with chunk sizes <=3 (both AAD variants) x every operator instance listed under 'observed'"}));
     par_for(scen.len(), crate::util::ncpu(), |i| {
@@ -157,7 +157,7 @@ pub fn mk_key_file(s: &[u8; 32], r_pub: &[u8; 32], pt: &[u8], chunking: &[usize]
 }
 
 fn key_block(ctx: &Ctx) {
-    let rounds = ctx.tier.pick(2, 12);
+    let rounds = ctx.tier.pick(2, 32);
     par_for(rounds, crate::util::ncpu(), |round| {
         let mut rng = Rng::fork(ctx.seed, &format!("C03-key-{}", round));
         let w = KeyWorld::new(&mut rng);
@@ -352,7 +352,7 @@ fn pass_block(ctx: &Ctx) {
 }
 
 fn production_block(ctx: &Ctx) {
-    let rounds = ctx.tier.pick(2, 8);
+    let rounds = ctx.tier.pick(2, 24);
     par_for(rounds, crate::util::ncpu(), |round| {
         let mut rng = Rng::fork(ctx.seed, &format!("C03-prod-{}", round));
         let w = KeyWorld::new(&mut rng);
@@ -432,7 +432,7 @@ fn production_block(ctx: &Ctx) {
             regions.push((r.1 - 16, r.1));
         }
         let others: [&[u8]; 1] = [&f2.bytes];
-        for k in 0..ctx.tier.pick(400, 4000) {
+        for k in 0..ctx.tier.pick(400, 12000) {
             let (name, x) = random_compound(&f1.bytes, &others, &mut rng, &regions);
             if k == 7 && round == 0 {
                 ctx.sample("compound edit (production size)", 1, || json!({"edits": name, "presented_len": x.len()}));
